@@ -339,15 +339,17 @@ def _work(item, seed, tier):
 def run(ctx):
     quick = ctx.tier == "quick"
     work = []
-    targets = TARGETS
-    for host in HOSTS:
+    targets = TARGETS if quick else TARGETS + ["/characteristics?id=1.9,1.10&meta=1&perms=1&type=1&ev=1", "/identify", "/prepare", "/" + "x" * 300]
+    hosts = HOSTS if quick else HOSTS + ["::1", "2001:db8::dead:beef", "10.0.0.255", "fe80::aede:48ff:fe00:1122%en0"]
+    objs = OBJS if quick else OBJS + [{"characteristics": [{"aid": a, "iid": i, "value": v} for a in (1, 2) for i, v in ((9, True), (10, -1.5e-7), (11, "x" * 200))]}, {"k": [[[]], {}, [{}], "", 0, -0.0, 1e308]}, {"unicode": "\u2028\u2029\ud83d\ude00"}, "just a string", 12345, None, True]
+    for host in hosts:
         calls = []
         for t in targets:
             calls.append({"api": "get", "target": t})
             for b in [b"", b'{"x":1}', b"\r\n\r\n"] + TLVS:
                 calls.append({"api": "put", "target": t, "arg": b})
                 calls.append({"api": "post", "target": t, "arg": b})
-            for o in OBJS:
+            for o in objs:
                 calls.append({"api": "put_json", "target": t, "arg": o})
                 calls.append({"api": "post_json", "target": t, "arg": o})
         for items in ([(6, b"\x01"), (0, b"\x05")], [(6, b"\x01"), (3, bytes(range(256)) * 2)], [(1, b"\r\n")]):
@@ -365,7 +367,7 @@ def run(ctx):
             work.append(("reconnect_host", {"host": hosts[0], "hosts": hosts, "order": order}))
     ctx.pmap(_work, work)
     ctx.exhaustive = True
-    ctx.bounds.update(hosts=HOSTS, targets=targets, json_objects=len(OBJS), id_subsets_up_to=3 if quick else 5)
+    ctx.bounds.update(hosts=hosts, targets=targets, json_objects=len(objs), id_subsets_up_to=3 if quick else 5)
     for s in ("lowlevel", "pairing_api", "reconnect_host", "host:v4", "host:v6", "host:scoped"):
         ctx.require(ctx.acc.symbols[s] > 0, f"{s} never ran")
     ctx.require(ctx.acc.extra["requests_checked"] > 200, "too few requests checked")
